@@ -299,7 +299,7 @@ theorem C01_generated_handler (o : Gen.Ora) (cfg : Gen.provider_IdentityProvider
     exact (C01_no_leak o (HandlerGen.inOfOra o cfg fmt exp) _ _ _ h.symm hns).1
 
 theorem C01_source_current : Consts.current = true ∧
-    FactsUtil.sameHashes ["provider.Response.sendBackResponse"] = true := ⟨by decide, by decide⟩
+    FactsUtil.sameHashes ["provider.NewID"] = true := ⟨by decide, by decide⟩
 
 /-- non-vacuity: a done record with all oracles succeeding yields a signed Success reply; a pending one AuthnFailed -/
 def okOra : Ora where
